@@ -825,7 +825,11 @@ def solve():
                              # C16: an objective failure ends the search after at most one failed call; completed trials stay
                              "%s.gcalls - old(%s.gcalls) <= %s.gevals - old(%s.gevals) + 1" % (MPB, MPB, MPB, MPB),
                              "implies(%s.gn >= 3, %s.gn - 2 == %s.numberOfGlobalTrials)" % (MSD, MSD, MSOL)] +
-                             ["implies(%s.gn >= 3, %s)" % (MSD, c) for c in on_method(inv("base", "wf", "own", "ord", "delta", "val", "best"))] + [
+                             ["implies(%s.gn >= 3, %s)" % (MSD, c) for c in on_method(inv("base", "wf", "own", "ord", "delta", "val", "best"))] +
+                             # a Solve without an objective failure leaves the solver in the between-iterations state again (queue
+                             # included): a resumed Solve / further batches start from what their contracts require
+                             ["implies(%s.gcalls - old(%s.gcalls) == %s.gevals - old(%s.gevals), %s)" % (MPB, MPB, MPB, MPB, c)
+                              for c in p_state()] + [
                              # C13: every listener is told once, at the end, with the returned solution
                              "%s.gtn >= %s + vlen(%s)" % (W, n0, LIS),
                              trace_entries(3, "%s.gtn - vlen(%s)" % (W, LIS), LIS, "self.searchData", MSOL, "vlen(%s)" % LIS)],
